@@ -14,7 +14,7 @@ import refstore
 
 A1 = Schema('A1', [
     Opt('int', 'i', '', 5), Opt('int', 'il', 'L', [b'1', b'2']), Opt('str', 's', '', b'd'), Opt('str', 'sl', 'L'),
-    Opt('bool', 'b', '', False), Opt('float', 'f', '', 1.5),
+    Opt('bool', 'b', '', False), Opt('float', 'f', '', 1.5), Opt('int', 'si', 'S'), Opt('str', 'ss', 'S'),
     Opt('sec', 'mt', 'MT', sub=[Opt('int', 'x', '', 1), Opt('int', 'xl', 'L', [b'1'])]),
     Opt('sec', 'sec', '', sub=[Opt('int', 'x', '', 1)]),
     Opt('sec', 'm', 'M', sub=[Opt('int', 'x', '', 1)])])
@@ -39,6 +39,9 @@ def ops_alphabet(full=True):
     O.append(('set', 'bool', b'b', 1, None))
     O.append(('set', 'float', b'f', 2.5, None))
     O.append(('oset', 'int', b'il', 9, 1))
+    O.append(('set', 'int', b'si', 7, None))
+    O.append(('set', 'str', b'ss', b'v', None))
+    O.append(('set', 'int', b'si', 7, 1))          # index beyond a scalar
     # lists
     O.append(('setlist', b'il', 'int', []))
     O.append(('setlist', b'il', 'int', [3]))
